@@ -54,7 +54,85 @@ fn run_line(line: &str) -> String {
     }
 }
 
+/// `mutate` mode (used by the case generator): `<LE|BE> <ops|-> | <message text>` -> the real
+/// encoding of the message (big-endian: the harness layout) with the mutation ops applied.
+/// ops, comma separated: b@K:O=V / h@K:O=V / w@K:O=V set an 8/16/32-bit field at offset O of
+/// submessage K (K = -1: offset from the start of the message); x@P=V xor; t@N truncate;
+/// i@P=HEX insert; d@P=N delete.
+fn mutate_line(line: &str) -> String {
+    let (head, text) = line.split_once(" | ").unwrap();
+    let (e, ops) = head.split_once(' ').unwrap();
+    let spec = parse_msg(text);
+    let le = e == "LE";
+    let mut b = if le { encode_real(&spec) } else { encode_be(&spec) };
+    // start offsets of the submessages, following the length fields as written
+    let mut starts = Vec::new();
+    let mut p = 20usize;
+    while p + 4 <= b.len() {
+        starts.push(p);
+        let l = if le { u16::from_le_bytes([b[p + 2], b[p + 3]]) } else { u16::from_be_bytes([b[p + 2], b[p + 3]]) } as usize;
+        p += 4 + l;
+    }
+    if ops != "-" {
+        for op in ops.split(',') {
+            let (kind, rest) = op.split_once('@').unwrap();
+            let (pos, val) = rest.split_once('=').unwrap_or((rest, "0"));
+            let abs = |pos: &str| -> usize {
+                match pos.split_once(':') {
+                    Some((k, o)) => {
+                        let k: i64 = k.parse().unwrap();
+                        let o: usize = o.parse().unwrap();
+                        if k < 0 || starts.is_empty() { o } else { starts[(k as usize) % starts.len()] + o }
+                    }
+                    None => pos.parse().unwrap(),
+                }
+            };
+            match kind {
+                "b" | "h" | "w" => {
+                    let a = abs(pos);
+                    let v: u64 = val.parse().unwrap();
+                    let n = match kind { "b" => 1, "h" => 2, _ => 4 };
+                    for i in 0..n {
+                        let byte = if le { (v >> (8 * i)) as u8 } else { (v >> (8 * (n - 1 - i))) as u8 };
+                        if a + i < b.len() {
+                            b[a + i] = byte;
+                        }
+                    }
+                }
+                "x" => {
+                    if !b.is_empty() {
+                        let a = abs(pos) % b.len();
+                        b[a] ^= val.parse::<u64>().unwrap() as u8;
+                    }
+                }
+                "t" => {
+                    let n = abs(pos);
+                    if n < b.len() {
+                        b.truncate(n);
+                    }
+                }
+                "i" => {
+                    let a = abs(pos).min(b.len());
+                    let ins = vh::util::hex(val);
+                    b.splice(a..a, ins);
+                }
+                "d" => {
+                    let a = abs(pos).min(b.len());
+                    let n = (val.parse::<usize>().unwrap()).min(b.len() - a);
+                    b.drain(a..a + n);
+                }
+                _ => {}
+            }
+        }
+    }
+    bx_encode(&b)
+}
+
 fn main() {
+    if std::env::args().nth(1).as_deref() == Some("mutate") {
+        vh::main_loop(mutate_line);
+        return;
+    }
     if std::env::args().nth(1).as_deref() == Some("sizes") {
         println!("RtpsSubmessageReadKind {}", std::mem::size_of::<dust_dds::rtps_messages::overall_structure::RtpsSubmessageReadKind>());
         println!("Parameter {}", std::mem::size_of::<dust_dds::rtps_messages::submessage_elements::Parameter>());
